@@ -107,6 +107,17 @@ func getWorld(t testing.TB) *sandbox {
 		h.StaticFS("/norange", &app.FS{Root: w.root, AcceptByteRange: false, PathRewrite: strip})
 		h.StaticFS("/gz", &app.FS{Root: w.root, AcceptByteRange: true, Compress: true, PathRewrite: strip})
 		h.StaticFS("/list", &app.FS{Root: w.root, AcceptByteRange: true, GenerateIndexPages: true, PathRewrite: strip})
+		// a short-lived file cache behind a middleware that can hold the response back after the file
+		// handler has returned (slow post-processing / slow client): the cache entry expires and the
+		// cache cleaner runs while the response still has an open reader on the file
+		slow := func(c context.Context, ctx *app.RequestContext) {
+			ctx.Next(c)
+			if len(ctx.Request.Header.Peek("X-Slow")) > 0 {
+				time.Sleep(slowHold)
+			}
+		}
+		h.Group("/slowfs", slow).StaticFS("/", &app.FS{Root: w.root, AcceptByteRange: true, PathRewrite: strip, CacheDuration: shortCache})
+		h.Group("/slowgz", slow).StaticFS("/", &app.FS{Root: w.root, AcceptByteRange: true, Compress: true, PathRewrite: strip, CacheDuration: shortCache})
 		h.Static("/static", w.root)
 		h.StaticFile("/one", filepath.Join(w.root, "f5"))
 		h.StaticFile("/empty", filepath.Join(w.root, "f0"))
@@ -601,6 +612,96 @@ func TestC08Random(t *testing.T) {
 			rec.Sample(reqs)
 		}
 	})
+}
+
+const (
+	shortCache = 40 * time.Millisecond
+	slowHold   = 170 * time.Millisecond
+)
+
+// TestC08CacheExpiry: the response is still holding its reader when the file's cache entry expires
+// and the cleaner runs (several times): the announced bytes must still be delivered, and the next
+// request for the same file (served from a new cache entry) too. Nothing here is a timing verdict:
+// if the cleaner does not get to run, the case simply passes.
+func TestC08CacheExpiry(t *testing.T) {
+	rec := ev.New("cache-expiry")
+	w := getWorld(t)
+	type cse struct {
+		Route, Path, Range string
+		Gzip               bool
+	}
+	var cases []cse
+	for _, p := range []string{"/f5", "/small-1", "/small", "/small+1", "/big"} {
+		for _, rg := range []string{"", "bytes=1-3", "bytes=-2"} {
+			cases = append(cases, cse{"/slowfs", p, rg, false})
+		}
+		cases = append(cases, cse{"/slowgz", p, "", true}, cse{"/slowgz", p, "", false})
+	}
+	shard, nshards := ev.Shard()
+	for ci, c := range cases {
+		if ci%nshards != shard {
+			continue
+		}
+		content := w.files[c.Path]
+		want, status := content, 200
+		if c.Range != "" {
+			kind, a, b := rangeRef(c.Range, len(content))
+			if kind != "satisfiable" {
+				continue
+			}
+			want, status = content[a:b+1], 206
+		}
+		req := func(slow bool) string {
+			var sb strings.Builder
+			fmt.Fprintf(&sb, "GET %s%s HTTP/1.1\r\nHost: example.com\r\n", c.Route, c.Path)
+			if c.Range != "" {
+				fmt.Fprintf(&sb, "Range: %s\r\n", c.Range)
+			}
+			if c.Gzip {
+				sb.WriteString("Accept-Encoding: gzip\r\n")
+			}
+			if slow {
+				sb.WriteString("X-Slow: 1\r\n")
+			}
+			sb.WriteString("\r\n")
+			return sb.String()
+		}
+		rec.Case(true, ev.HashString(fmt.Sprintf("%+v", c)), "route-"+c.Route, map[bool]string{true: "range", false: "whole"}[c.Range != ""])
+		res := w.srv.Serve(sconn.New([][]byte{[]byte(req(false) + req(true) + req(true) + req(false))}, sconn.EOF))
+		fail := func(f string, a ...interface{}) {
+			msg := fmt.Sprintf("%+v: ", c) + fmt.Sprintf(f, a...)
+			ev.Fail(prop, "cache-expiry", c, msg)
+			t.Errorf("%s", msg)
+		}
+		if res.Panic != nil {
+			fail("panic: %v\n%s", res.Panic, res.Stack)
+			continue
+		}
+		pos := 0
+		for k := 0; k < 4; k++ {
+			pr, err := wire.ReadResponse(res.Output, pos, "GET")
+			if err != nil {
+				fail("response #%d (held back %v after the handler while the %v cache entry expires) is not a complete well-formed message: %v; %d bytes left: %q", k, k == 1 || k == 2, shortCache, err, len(res.Output)-pos, short(res.Output[pos:]))
+				break
+			}
+			pos = pr.End
+			body := pr.Body
+			if wire.HasToken(pr.Headers, "Content-Encoding", "gzip") {
+				zr, err := gzip.NewReader(bytes.NewReader(body))
+				if err == nil {
+					body, err = io.ReadAll(zr)
+				}
+				if err != nil {
+					fail("response #%d: gzip body does not decode: %v", k, err)
+					break
+				}
+			}
+			if pr.Status != status || !bytes.Equal(body, want) {
+				fail("response #%d: status %d with %d body bytes, want %d with %d bytes (file %s, range %q)", k, pr.Status, len(body), status, len(want), c.Path, c.Range)
+				break
+			}
+		}
+	}
 }
 
 func TestC08Replay(t *testing.T) {
